@@ -110,6 +110,25 @@ fn c09_one(dir: &std::path::Path, is_key: bool, len: usize, seed: u64) -> Result
             verify(&mut m, &model, &format!("after overwriting the {len}-byte value with {l2} bytes"))?;
             checks += 3;
         }
+        if (1000..=600_000).contains(&len) {
+            // slots of 1024 bytes and more share one first-fit list: free a big slot, then a smaller one (now
+            // the head), store a value that only fits the big one (taken from the middle of the list), then a
+            // second one: each must get its own slot and all entries keep their bytes
+            let big = len + 300;
+            put(&mut m, &mut model, b"y-big", pat(seed ^ 20, big))?;
+            put(&mut m, &mut model, b"z-small", pat(seed ^ 21, len))?;
+            for k in [&b"y-big"[..], &b"z-small"[..]] {
+                let r = guard(|| m.delete(k));
+                if r != Out::Ok(model.remove(k)) {
+                    return Err(format!("delete of a {len}-byte-class value gives a wrong result"));
+                }
+            }
+            put(&mut m, &mut model, b"y2", pat(seed ^ 22, big))?;
+            put(&mut m, &mut model, b"w2", pat(seed ^ 23, big))?;
+            put(&mut m, &mut model, b"z2", pat(seed ^ 24, len))?;
+            verify(&mut m, &model, &format!("after freeing a {big}-byte and a {len}-byte value and storing two {big}-byte values and a {len}-byte value"))?;
+            checks += 5;
+        }
     }
     let _ = guard_plain(move || {
         drop(m);
@@ -294,7 +313,7 @@ pub fn c09(tier: &str, seed: u64) -> i32 {
     let total = ctx.run.get("arith_value_lengths") + ctx.run.get("arith_key_evaluations") + evals as i64;
     ctx.run.set("evaluations", J::Int(total));
     ctx.run.set("distinct_nontrivial", J::Int(ctx.run.get("arith_tight_fits") + lens_done as i64));
-    ctx.run.set("rule", J::s("(a) complete enumeration of the slot arithmetic through the layout-probe hook (the crate's own encoded_piece_size + roundup): every value length 0..=2^24 and every key length 0..=2^16 (plus 273 lengths each around 2^17, 2^20, 2^21, 2^24) x every ordered pair of (value offset, next offset) from the set of all vu64 width boundaries +-8 for the raw and the /8 encoding; the chosen slot must be a legal class, a multiple of 8 and >= the independently computed exact record length (own vu64 length function, size field computed from the chosen slot). (b) end-to-end on the real write path for every length of the listed ranges: sentinel, X(L), sentinel, X overwritten with L+1, L-1, L (values) / deleted and re-inserted one byte longer and shorter (keys); all three entries read back byte for byte after every step; after close the files must tile without overlap with zero padding (independent decoder) and re-open. (c) explicit-state closures (engine A) from two seeded images whose key resp. value file ends 16 bytes below 16 KiB, over two colliding keys whose records fill a 16-byte slot exactly: an offset inside such a record grows by a byte, the record must move and every entry stay readable and inside its slot. non-trivial = arithmetic cases in which the record fills its slot to within 7 bytes + end-to-end lengths"));
+    ctx.run.set("rule", J::s("(a) complete enumeration of the slot arithmetic through the layout-probe hook (the crate's own encoded_piece_size + roundup): every value length 0..=2^24 and every key length 0..=2^16 (plus 273 lengths each around 2^17, 2^20, 2^21, 2^24) x every ordered pair of (value offset, next offset) from the set of all vu64 width boundaries +-8 for the raw and the /8 encoding; the chosen slot must be a legal class, a multiple of 8 and >= the independently computed exact record length (own vu64 length function, size field computed from the chosen slot). (b) end-to-end on the real write path for every length of the listed ranges: sentinel, X(L), sentinel, X overwritten with L+1, L-1, L, and for L >= 1000 a free-and-reuse round on the shared first-fit list (free a bigger and a smaller large slot, store two big values and a small one) (values) / deleted and re-inserted one byte longer and shorter (keys); all three entries read back byte for byte after every step; after close the files must tile without overlap with zero padding (independent decoder) and re-open. (c) explicit-state closures (engine A) from two seeded images whose key resp. value file ends 16 bytes below 16 KiB, over two colliding keys whose records fill a 16-byte slot exactly: an offset inside such a record grows by a byte, the record must move and every entry stay readable and inside its slot. non-trivial = arithmetic cases in which the record fills its slot to within 7 bytes + end-to-end lengths"));
     ctx.run.set("end_to_end", J::obj(vec![("value_lengths", J::Int(val_lens.len() as i64)), ("key_lengths", J::Int(key_lens.len() as i64)), ("checks", J::Int(evals as i64))]));
     ctx.run.sample(J::s("value length 16777216: slot chosen by the crate vs exact record length 1+4+16777216"));
     ctx.run.sample(J::s("key length 65536 x value offset 2^21-8 x next offset 8*2^14"));
@@ -838,9 +857,22 @@ fn c10_bytes<T: Kt>(dir: &std::path::Path, evals: &mut u64) -> Result<(), (Strin
 }
 
 fn c10_bytes_n<T: Kt>(dir: &std::path::Path, buckets: u64, evals: &mut u64) -> Result<(), (String, String)> {
+    // in ascending order (the empty key is the oldest entry of its chain), in descending order (it is the
+    // newest) and rotated (it sits in the middle)
+    let base = byte_key_set();
+    let mut desc = base.clone();
+    desc.reverse();
+    let mut rot = base.clone();
+    rot.rotate_left(base.len() / 2);
+    for keys in [base, desc, rot] {
+        c10_bytes_order::<T>(dir, buckets, keys, evals)?;
+    }
+    Ok(())
+}
+
+fn c10_bytes_order<T: Kt>(dir: &std::path::Path, buckets: u64, keys: Vec<Vec<u8>>, evals: &mut u64) -> Result<(), (String, String)> {
     let kt = T::ID;
     clear_dir(dir);
-    let keys = byte_key_set();
     let (db, mut m) = match open_map::<T>(dir, MAP_NAME, &Params::buckets(buckets)) {
         Out::Ok(x) => x,
         o => return Err(("bytes:open".into(), format!("open {}", o.failed().unwrap_or_default()))),
@@ -1399,6 +1431,87 @@ fn c14_type<T: Kt>(dir: &std::path::Path, max_len: usize, evals: &mut u64) -> Re
             drop(m);
             drop(db);
         });
+        // batches over keys of every pair of adjacent key slot classes: a key of class i and a short key are
+        // stored in one batch, the first is deleted by a batch, a key of class i+1 is stored by a batch
+        for i in 0..15usize {
+            *evals += 1;
+            clear_dir(dir);
+            let (db, mut m) = match open_map::<T>(dir, MAP_NAME, &p) {
+                Out::Ok(x) => x,
+                o => return Err(("open".into(), format!("open {}", o.failed().unwrap_or_default()))),
+            };
+            let klen = |c: usize| if c >= 15 { 1000 } else { decoder::CLASSES[c] as usize - 8 };
+            let mk = |tag: u8, len: usize| -> Vec<u8> {
+                let mut k = vec![b'k', tag];
+                while k.len() < len {
+                    k.push(b'a' + (k.len() % 25) as u8);
+                }
+                k
+            };
+            let ka = mk(b'A', klen(i));
+            let kb = mk(b'B', 6);
+            let kc = mk(b'C', klen(i + 1));
+            let all = vec![ka.clone(), kb.clone(), kc.clone()];
+            let mut model: BTreeMap<Vec<u8>, Vec<u8>> = BTreeMap::new();
+            let first: Vec<(&[u8], &[u8])> = vec![(&ka[..], b"va"), (&kb[..], b"vb")];
+            for (k, val) in &first {
+                model.insert(k.to_vec(), val.to_vec());
+            }
+            if guard(|| m.bulk_put(&first)) != Out::Ok(()) {
+                return Err(("bulk_put".into(), format!("{}: bulk_put with a {}-byte key fails", kt.name(), ka.len())));
+            }
+            let exp = vec![model.remove(&ka)];
+            if guard(|| m.bulk_delete(&[&ka[..]])) != Out::Ok(exp) {
+                return Err(("bulk_delete".into(), format!("{}: bulk_delete of a {}-byte key differs from delete", kt.name(), ka.len())));
+            }
+            model.insert(kc.clone(), b"vc".to_vec());
+            if guard(|| m.bulk_put(&[(&kc[..], &b"vc"[..])])) != Out::Ok(()) {
+                return Err(("bulk_put".into(), format!("{}: bulk_put with a {}-byte key fails", kt.name(), kc.len())));
+            }
+            check_state(&mut m, &all, &model, kt, &format!("batches over keys of {} / 6 / {} bytes (key slot classes {} and {})", ka.len(), kc.len(), decoder::CLASSES[i], decoder::CLASSES[i + 1]))?;
+            let _ = guard_plain(move || {
+                drop(m);
+                drop(db);
+            });
+        }
+        // batches that free and reuse slots of the shared large class: two values (3000 and 1500 bytes) are
+        // stored, both deleted in one batch (either order), then two 3000-byte values and a 1500-byte value
+        // are stored in one batch; every entry must hold what the element-wise calls would leave
+        for del_order in [[0usize, 1], [1, 0]] {
+            *evals += 1;
+            clear_dir(dir);
+            let (db, mut m) = match open_map::<T>(dir, MAP_NAME, &p) {
+                Out::Ok(x) => x,
+                o => return Err(("open".into(), format!("open {}", o.failed().unwrap_or_default()))),
+            };
+            let mut model: BTreeMap<Vec<u8>, Vec<u8>> = BTreeMap::new();
+            let v: Vec<Vec<u8>> = vec![pat(61, 3000), pat(62, 1500), pat(63, 3000), pat(64, 3000), pat(65, 1500)];
+            let first: Vec<(&[u8], &[u8])> = vec![(&ek[0][..], &v[0][..]), (&ek[1][..], &v[1][..])];
+            for (k, val) in &first {
+                model.insert(k.to_vec(), val.to_vec());
+            }
+            if guard(|| m.bulk_put(&first)) != Out::Ok(()) {
+                return Err(("bulk_put".into(), format!("{}: bulk_put of two large values fails", kt.name())));
+            }
+            let dk: Vec<&[u8]> = del_order.iter().map(|i| &ek[*i][..]).collect();
+            let exp: Vec<Option<Vec<u8>>> = del_order.iter().map(|i| model.remove(&ek[*i])).collect();
+            if guard(|| m.bulk_delete(&dk)) != Out::Ok(exp) {
+                return Err(("bulk_delete".into(), format!("{}: bulk_delete of two large values differs from the element-wise deletes", kt.name())));
+            }
+            // in key order the first request is a big one: it has to skip the smaller slot at the head of the list
+            let second: Vec<(&[u8], &[u8])> = vec![(&ek[0][..], &v[2][..]), (&ek[2][..], &v[3][..]), (&ek[3][..], &v[4][..])];
+            for (k, val) in &second {
+                model.insert(k.to_vec(), val.to_vec());
+            }
+            if guard(|| m.bulk_put(&second)) != Out::Ok(()) {
+                return Err(("bulk_put".into(), format!("{}: bulk_put into freed large slots fails", kt.name())));
+            }
+            check_state(&mut m, &ek, &model, kt, "bulk_put into slots of the large class freed by a bulk_delete")?;
+            let _ = guard_plain(move || {
+                drop(m);
+                drop(db);
+            });
+        }
     }
     let batches_rep = perms_upto(4, max_len, true);
     let batches_norep = perms_upto(4, max_len.min(4), false);
